@@ -247,6 +247,7 @@ func CopyFileContents(cfg *config.Configuration, src string, dst string) error {
 	if err != nil {
 		return err
 	}
+	tools.VerifFs("rename", tmp.Name(), dst)
 	return os.Rename(tmp.Name(), dst)
 }
 
@@ -254,6 +255,7 @@ func LinkOrCopy(cfg *config.Configuration, src string, dst string) error {
 	if src == dst {
 		return nil
 	}
+	tools.VerifFs("link", src, dst)
 	err := os.Link(src, dst)
 	if err == nil {
 		return err
